@@ -404,6 +404,8 @@ pub fn run(tier: Tier) -> i32 {
     for p in parts {
         rep.stats.merge(p);
     }
+    // or-groups with more distinct fields than the matrix key encoding's thresholds (128 / 2048 / 0xD800)
+    rep.stats.merge(crate::wide::run(tier.thorough(), false));
     rep.stats.count("pass_order_rule_specs", po.len() as u64);
     rep.stats.count("rule_specs_enumerated", specs.len() as u64);
     rep.exhaustive = rep
